@@ -8,8 +8,8 @@ import (
 	"context"
 	"fmt"
 	"io"
-	"os"
 	iofs "io/fs"
+	"os"
 	"path"
 	"path/filepath"
 	"sort"
@@ -228,7 +228,6 @@ func (s *fxSim) compareState(op string) *vs.Violation {
 	}
 	return nil
 }
-
 
 func (s *fxSim) genPath(c vs.Chooser) (spelled, clean string) {
 	if vs.Pct(c, 4) {
